@@ -9,7 +9,8 @@ C13, second file (gap round): the three clauses that `Props/C13.lean` decided on
    the driver builds *every* collection case) - `collSys_hyps` discharges the volume and root hypotheses of the run
    theorems from the cell volumes and the per-field variances alone, `collection_run_per_field`: in an `m`-step
    Euler-Maruyama or Milstein run, in every step, every entry of every component of field `f` in cell `cell` changes
-   by `dt*rate + r*xi` with `r ≥ 0`, `r*r = noise[f]*dt/vol[cell]` (any interpretation: the variance is constant).
+   by `dt*rate + r*xi` with `r ≥ 0`, `r*r = noise[f]*dt/vol[cell]` (any interpretation: the variance is constant);
+   `collection_run_implicit_per_field`: the semi-implicit solver iterates from `st j + r*xi_j` with the same `r`.
 2. **drift and Milstein correction for N steps, non-uniform volumes**: `run_explicit_documented` (one statement for both
    explicit solvers, total: the run exists), `run_explicit_sum` (induction over the steps: state after `M` steps =
    initial state + sum of the documented increments `docIncr`, the `j`-th with array `j` of the stream),
@@ -574,4 +575,100 @@ example : (0 : ℝ) ≤ 1 / 4 ∧ 0 < (#[4, 1] : Array ℝ).size ∧ (∀ c, c <
     rcases j with _ | j <;> simp [get, zero]
 
 end realquad
+
+section collimp
+variable {K : Type} [Field K] [LinearOrder K] [IsStrictOrderedRing K]
+
+/-- **Collections, semi-implicit solver, whole runs.**  Every step `j` of a successful semi-implicit run of `collSys`
+is the fixed-point iteration `x = base + dt*rate(x)` (documented stopping rule) started from `base + dt*rate(st j)`,
+where the reference state is `base = st j + r*xi_j` entry-wise with `r ≥ 0`, `r*r = noise[f]*dt/vol[cell]` for the
+field `f` and the cell the entry belongs to: the same increment as the explicit solvers add, with the variance of the
+entry's own field; the arrays are the successive ones of the stream. -/
+theorem collection_run_implicit_per_field (sqrt : K → K) (dt : K) (I : Interp) (vol : Array K)
+    (noise : List K) (ncomps : List Nat) (rate : Nat → Array K → Array K) (maxiter : Nat)
+    (maxerr2 : K) (hs : sqrt dt * sqrt dt = dt) (hs0 : 0 ≤ sqrt dt)
+    (hroot : ∀ f cell, f < ncomps.length → cell < vol.size →
+      RootOn sqrt (noise.getD (f % noise.length) zero * (1 / get vol cell)))
+    (hroot2 : ∀ f cell, f < ncomps.length → cell < vol.size →
+      RootOn sqrt (dt * (noise.getD (f % noise.length) zero * (1 / get vol cell))))
+    (m k : Nat) (u : Array K) (xs : List (Array K)) (u' : Array K) (rest : List (Array K)) :
+    let S := collSys sqrt dt I vol noise ncomps rate none maxiter maxerr2
+    S.run .implicit k m u xs = some (u', rest) →
+    ∃ st : Nat → Array K, st 0 = u ∧ st m = u' ∧ rest = xs.drop m ∧
+      ∀ j, j < m → ∃ x base, xs[j]? = some x ∧
+        siIterate S (k + j) base maxiter (siGuess S.n dt base (rate (k + j) (st j))) = some (st (j + 1)) ∧
+        ∀ (f c cell : Nat) (hf : f < ncomps.length), c < ncomps[f] → cell < vol.size →
+          ∃ r : K, 0 ≤ r ∧ r * r = noise.getD (f % noise.length) zero * dt / get vol cell ∧
+            get base (((ncomps.take f).sum + c) * vol.size + cell)
+              = get (st j) (((ncomps.take f).sum + c) * vol.size + cell)
+                + r * get x (((ncomps.take f).sum + c) * vol.size + cell) := by
+  intro S h
+  obtain ⟨hinv, h1⟩ := collSys_hyps sqrt dt I vol noise ncomps rate maxiter maxerr2 hroot
+  have h2 : ∀ (u : Array K) (i : Nat), i < S.n →
+      RootOn S.sqrt (S.dt * (get (S.var u) i * get S.inv (i % S.ncell))) := by
+    -- the same decomposition as in `collSys_hyps`, for the root of `dt * x`
+    intro u i hi
+    have hn : S.n = ncomps.sum * vol.size := rfl
+    have hpos : 0 < vol.size := by
+      rcases Nat.eq_zero_or_pos vol.size with h0 | h0
+      · rw [hn, h0] at hi; omega
+      · exact h0
+    have hmod : i % vol.size < vol.size := Nat.mod_lt _ hpos
+    have hp : i / vol.size < ncomps.sum := by
+      apply Nat.div_lt_of_lt_mul
+      rw [Nat.mul_comm]; exact hn ▸ hi
+    obtain ⟨f, c, hf, hcf, e⟩ := exists_field_of_comp ncomps _ hp
+    have hi' : i = ((ncomps.take f).sum + c) * vol.size + i % vol.size := by
+      rw [← e]; exact (Nat.div_add_mod' i vol.size).symm
+    have hv : get (S.var u) i = noise.getD (f % noise.length) zero := by
+      show get (constVar vol.size (collVars noise ncomps)) i = _
+      rw [hi']
+      exact variance_layout_per_field noise ncomps vol.size f c _ hf hcf hmod
+    rw [hinv i hi, hv]
+    exact hroot2 f _ hf hmod
+  obtain ⟨st, h0, hm, hdrop, hst⟩ := run_implicit_documented S hs hs0 h1 h2 m k u xs u' rest h
+  refine ⟨st, h0, hm, hdrop, ?_⟩
+  intro j hj
+  obtain ⟨x, hx, hit⟩ := hst j hj
+  refine ⟨x, _, hx, hit, ?_⟩
+  intro f c cell hf hc hcell
+  obtain ⟨hi, hmod⟩ := coll_index ncomps vol.size f c cell hf hc hcell
+  have hv : get (S.var (st j)) (((ncomps.take f).sum + c) * vol.size + cell)
+      = noise.getD (f % noise.length) zero :=
+    variance_layout_per_field noise ncomps vol.size f c cell hf hc hcell
+  have hR := h1 (st j) _ hi
+  have hm' : (((ncomps.take f).sum + c) * vol.size + cell) % S.ncell = cell := hmod
+  obtain ⟨r0, r2⟩ := root_of_product (s := S.s) (dt := S.dt) (V := get vol cell) hs hR.1
+    (by rw [hinv _ hi, hm']) hs0 hR.2
+  have hdt : S.dt = dt := rfl
+  have hi' : ((ncomps.take f).sum + c) * vol.size + cell < S.n := hi
+  refine ⟨_, r0, r2.trans (by rw [hv, hdt]), ?_⟩
+  rw [get_tab _ hi', Sys.emIncrement, get_tab _ hi', rootsEM, get_tab _ hi']
+
+end collimp
+
+section examples3
+
+/-- the additional root hypothesis of `collection_run_implicit_per_field` holds for the example collection
+(`dt*noise[f]/vol[cell]` = 1/4, 1, 1/16, 1/4) ... -/
+example : ∀ f cell, f < [1, 2].length → cell < (#[4, 1] : Array ℚ).size →
+      RootOn exSqrt ((1 / 4 : ℚ) * (([4, 1] : List ℚ).getD (f % ([4, 1] : List ℚ).length) zero
+        * (1 / get (#[4, 1] : Array ℚ) cell))) := by
+  intro f cell hf hc
+  have hf' : f < 2 := hf
+  have hc' : cell < 2 := hc
+  unfold RootOn
+  match f, hf', cell, hc' with
+  | 0, _, 0, _ => decide +kernel
+  | 0, _, 1, _ => decide +kernel
+  | 1, _, 0, _ => decide +kernel
+  | 1, _, 1, _ => decide +kernel
+
+/-- ... and its semi-implicit run converges, consumes one array per step and moves away from the deterministic one -/
+example : ((exColl .ito).run .implicit 0 2 #[1, 1, 1, 1, 1, 1]
+      [#[1, 1, 1, 1, 1, 1], #[-1, 0, 1, 2, 0, 1], #[5, 5, 5, 5, 5, 5]]).map (·.2) = some [#[5, 5, 5, 5, 5, 5]] := by
+  decide +kernel
+
+end examples3
+
 end PdeVerif.Noise
